@@ -218,6 +218,11 @@ func (ord *Order) Calculate() error {
 	if ord.Regime.IsEmpty() {
 		ord.SetRegime(partyTaxCountry(ord.Supplier))
 	}
+	// see Invoice.Calculate: customer rates must be in place before the
+	// normalisers look at the tax combos
+	if ord.HasTags(tax.TagCustomerRates) {
+		applyCustomerRates(ord)
+	}
 	ord.Normalize(ord.normalizers())
 	return calculate(ord)
 }
